@@ -6,6 +6,22 @@ props = [json.loads(l) for l in open(os.path.join(here, 'properties.jsonl'))]
 
 # id -> (technique, level text, level note, design ref)
 claimed = {
+
+ 'C01': ('interprocedural must-pass dataflow (check dominates effect) over go/ssa + call graph incl. goroutines/closures, provenance-typed atoms',
+         'Structural necessary condition decided on all paths of the call graph of fdo.TO2: ProveDevice (type 64) is sent, device modules are invoked and TO2 reports success only after header-HMAC, manufacturer-key, entry-chain, chain-end-key equality, ProveOVHdr signature, fresh-nonce echo, HelloDevice-hash, to1d signature (or nil) and key-exchange validity checks passed, each with operand provenance; the verifiers\' own summaries are checked too. It does not prove cryptographic binding, nor behaviour for every tampered byte (value-level).',
+         'Trusts go/types+go/ssa, the rule tables, stdlib crypto; atoms are never killed; provenance is over-approximate.', 'DESIGN.md §2 C01'),
+ 'C02': ('interprocedural must-pass dataflow + who-may-write / who-may-call tables over go/ssa',
+         'Structural necessary conditions: key-exchange completion, session storage and SetupDevice only after the device proof (signature under the voucher\'s device key, session nonce, UEID=GUID); Respond for types 65..254 only after Session.Decrypt succeeded; SEK/SVK written only by constructors (empty), KDF-derived steps and restore; ProveOVHdr signed only after owner-key equality and suite validity; owner effects only in the 68/70 arms. Does not decide message ordering beyond what decryption under derived keys implies.',
+         'Trusts go/types+go/ssa, rule tables, stdlib crypto; http.Handler is the only transport analysed.', 'DESIGN.md §2 C02'),
+ 'C05': ('interprocedural must-pass dataflow + call-site tables (session argument per message type, IV buffer identity) over go/ssa',
+         'Structural necessary conditions for the tunnel: server and client encrypt before encoding and decrypt before dispatching/returning for every type in 65..254 (constants read from package protocol); SessionCrypter.Decrypt authenticates (MAC recomputed and compared, or AEAD suite) before decrypting; Encrypt0.Decrypt pins the algorithm header; every Crypter.Encrypt fills a fresh IV completely from rand and uses that buffer. Does not decide secrecy, bit-flip rejection inside AES/HMAC, or cross-session replay.',
+         'Trusts go/types+go/ssa, rule tables, stdlib crypto/cipher, crypto/hmac.', 'DESIGN.md §2 C05'),
+ 'C07': ('interprocedural must-pass dataflow over go/ssa + sibling agreement table (expiry units)',
+         'Structural necessary condition: the TO1 responder returns the registered blob only after nonce, UEID shape, registration lookup, device key and EAT signature checks (with provenance), returns the stored blob untouched, and the sqlite store enforces expiry with matching write/read time units. Device-side verification of the blob is decided under C01. Does not decide byte fidelity through storage or other backends.',
+         'Trusts go/types+go/ssa, rule tables, stdlib crypto/time.', 'DESIGN.md §2 C07'),
+ 'C08': ('interprocedural must-pass dataflow, backward all-paths search, dispatch/constant tables over go/ssa',
+         'Structural necessary conditions: each server effect has one wire-reachable call site, in the arm of the causing message, after the session reads of its prerequisite step; dispatch tables agree with message_types.go; token creation only on start messages, invalidation after every failure response, before final/error responses and on client error messages, always with a token-bearing context; sqlite tokens are MAC-checked. Does not explore histories or interleavings as executions.',
+         'Trusts go/types+go/ssa, rule tables; sessions are assumed isolated by token (C18).', 'DESIGN.md §2 C08'),
  'C04': ('interprocedural must-pass dataflow (check dominates success return) over go/ssa + call graph',
          'Structural necessary condition decided on all paths: each exported voucher verifier returns success only after its comparison atoms (hmac.Equal over recomputed values, x509 Verify, per-entry Sign1.Verify/header-hash/previous-hash, recursion on entries[1:] with the verified key) and ExtendVoucher only after type/size/owner-key equality. It does not prove that untampered vouchers verify nor bit-level tamper coverage; that is value-level and outside static reach.',
          'Trusts go/types+go/ssa, the atom/anchor tables in /verif/checker, and that stdlib hash/HMAC/x509/ECDSA/RSA behave as documented; provenance is over-approximate.', 'DESIGN.md §2 C04'),
